@@ -30,7 +30,7 @@ META = dict(
 )
 
 
-def track(env, topo, perm, box, cm, guess_pn, nframes=2):
+def track(env, topo, perm, box, cm, guess_pn, nframes=2, guess_target=None, still_last=False):
     import forsys as fs
     spec0 = catalogue(topo, n_spoke=2, n_border=2)
     ends = set()
@@ -48,6 +48,8 @@ def track(env, topo, perm, box, cm, guess_pn, nframes=2):
         for pn, p in spec0.points.items():
             if k == 0 or pn not in ends:
                 coords[pn] = p
+            elif still_last and k == nframes - 1:
+                coords[pn] = pos[k - 1][pn]        # last frame: same positions as the one before, other numbering
             else:
                 dx, dy = env.real(f"dx{k}_{pn}"), env.real(f"dy{k}_{pn}")
                 env.assume(dx >= -lim)
@@ -59,12 +61,13 @@ def track(env, topo, perm, box, cm, guess_pn, nframes=2):
                 prev = pos[k - 1][pn]
                 coords[pn] = (prev[0] + dx, prev[1] + dy)
         pos[k] = coords
-        b = tissue.build(spec0.copy(), fs, coords=coords, vid=PERMS[perm if k % 2 else "id"](n))
+        b = tissue.build(spec0.copy(), fs, coords=coords, vid=PERMS[(perm if k % 2 else "id") if k < 2 else "gap"](n))
         builts[k] = b
         frames[k] = fs.frames.Frame(k, b.vertices, b.edges, b.cells, time=float(k))
     guess = {k: {} for k in range(nframes)}
     if guess_pn:
-        guess[0] = {builts[0].vid_of[guess_pn]: builts[1].vid_of[guess_pn]}
+        # guess_target: a user pairing that contradicts proximity (the user's word still counts, and its target is taken)
+        guess[0] = {builts[0].vid_of[guess_pn]: builts[1].vid_of[guess_target or guess_pn]}
     ts = fs.time_series.TimeSeries(frames, cm=cm, initial_guess=guess)
     obs = []
     for k in range(nframes - 1):
@@ -77,12 +80,12 @@ def track(env, topo, perm, box, cm, guess_pn, nframes=2):
         vals = [v for v in m.values() if v is not None]
         ok1 = set(m.keys()) <= e0 and set(vals) <= e1 and len(vals) == len(set(vals))
         if guess_pn and k == 0:
-            ok1 = ok1 and m.get(builts[0].vid_of[guess_pn]) == builts[1].vid_of[guess_pn]
+            ok1 = ok1 and m.get(builts[0].vid_of[guess_pn]) == builts[1].vid_of[guess_target or guess_pn]
         obs.append(Ob(f"map-{k}-is-an-injective-map-between-interface-end-points-honouring-the-guess", ok1))
-        if box <= 0.0031:
+        if box <= 0.0031 and not guess_target:
             true = all(m.get(builts[k].vid_of[pn]) == builts[k + 1].vid_of[pn] for pn in ends)
             obs.append(Ob(f"map-{k}-sends-every-junction-to-its-true-successor", true))
-    if box <= 0.0031 and all(ts.mapping[k] is not None for k in range(nframes - 1)):
+    if box <= 0.0031 and not guess_target and all(ts.mapping[k] is not None for k in range(nframes - 1)):
         rt = True
         for pn in ends:
             v0 = builts[0].vid_of[pn]
@@ -102,6 +105,13 @@ def jobs(tier):
                 js.append(Job(f"small-motion-{topo}-{perm}-guess={guess}", "c12:track",
                               dict(topo=topo, perm=perm, box=0.003, cm=False, guess_pn=guess, nframes=2 if (quick or topo != "T3") else 3),
                               budget_s=2400, max_paths=2000, weight=3, opts=dict(prune_minmax=True)))
+    # a user pairing that contradicts proximity: its target must still be taken (injectivity), and a three-frame series with
+    # a different numbering in every frame (composition order of the backward lookup)
+    js.append(Job("contradicting-guess-T3-rev", "c12:track", dict(topo="T3", perm="rev", box=0.003, cm=False, guess_pn="P1", guess_target="P2"),
+                  budget_s=2400, max_paths=2000, weight=3, opts=dict(prune_minmax=True)))
+    if quick:
+        js.append(Job("three-frames-T3-der-guess=P1", "c12:track", dict(topo="T3", perm="der", box=0.003, cm=False, guess_pn="P1", nframes=3, still_last=True),
+                      budget_s=2400, max_paths=4000, weight=6, opts=dict(prune_minmax=True)))
     if not quick:
         # displacements reaching beyond the first search radius (0.5% of the extent): the search forks on every comparison
         js.append(Job("beyond-first-radius-T3-rev", "c12:track", dict(topo="T3", perm="rev", box=0.0055, cm=False, guess_pn=None),
